@@ -368,7 +368,11 @@ func buildFieldType(ww *conversionVisitor, node sourcewalk.FieldNode) (*descript
 				ExclusiveMinimum: st.Date.Rules.ExclusiveMinimum,
 				ExclusiveMaximum: st.Date.Rules.ExclusiveMaximum,
 			}
-			proto.SetExtension(desc.Options, ext_j5pb.E_Field, opts)
+			proto.SetExtension(desc.Options, ext_j5pb.E_Field, &ext_j5pb.FieldOptions{
+				Type: &ext_j5pb.FieldOptions_Date{
+					Date: opts,
+				},
+			})
 		}
 
 		if st.Date.ListRules != nil {
@@ -395,7 +399,11 @@ func buildFieldType(ww *conversionVisitor, node sourcewalk.FieldNode) (*descript
 				ExclusiveMinimum: st.Decimal.Rules.ExclusiveMinimum,
 				ExclusiveMaximum: st.Decimal.Rules.ExclusiveMaximum,
 			}
-			proto.SetExtension(desc.Options, ext_j5pb.E_Field, opts)
+			proto.SetExtension(desc.Options, ext_j5pb.E_Field, &ext_j5pb.FieldOptions{
+				Type: &ext_j5pb.FieldOptions_Decimal{
+					Decimal: opts,
+				},
+			})
 		}
 
 		if st.Decimal.ListRules != nil {
